@@ -427,7 +427,10 @@ class RDFWriter(object):
         if filename.find(RDF_CONVERSION_FORMATS.get(rdf_format)) < 0:
             filename_ext += RDF_CONVERSION_FORMATS.get(rdf_format)
 
-        with open(filename_ext, "w") as out_file:
+        # RDF serialisations are UTF-8 by definition: do not depend on the locale
+        # encoding, and fail before opening the file.
+        data.encode("utf-8")
+        with open(filename_ext, "w", encoding="utf-8") as out_file:
             out_file.write(data)
 
 
